@@ -1146,8 +1146,9 @@ def run(ctx):
     for fam, W, policy, kills in multi[:: (3 if ctx.quick else 1)]:
         shapes.append((min(fam["nintf"], 6), min(W, 5), fam["N"], fam["seed"], True, kills))
     ctx.extra["model_side_segments"] = model_side(ctx, shapes)
+    # (more workers than ensembles that can be picked at once is not a configuration: n_ens = 3 only with one worker)
     multi_engine_model(ctx, [(n, W, 10, sd) for n in ((4, 6) if ctx.quick else (3, 4, 5, 6)) for W in (1, 2, 3)
-                             for sd in ((ctx.seed,) if ctx.quick else (0, 1, ctx.seed + 2))])
+                             if W == 1 or n >= 4 for sd in ((ctx.seed,) if ctx.quick else (0, 1, ctx.seed + 2))])
     ctx.assumptions += [
         "interface_cap: families 'wfcap' (lattice cap 13/16 with moves sh,sh,wf,wf,sh; TurtleMD wf.toml with cap -0.1 / 0.1); "
         "all other families run without a cap",
